@@ -1,7 +1,7 @@
 (** Extraction of the executable model for the correspondence check.
     Only [ExtrOcamlBasic] is used (bool, option, list, prod, unit, sumbool map
     to OCaml's own); nat stays the Coq datatype.  No [Extract Constant]. *)
-From CB Require Import Driver NetDriver TraceEnv.
+From CB Require Import Driver NetDriver TraceEnv PipeNet.
 Require Extraction.
 Require ExtrOcamlBasic.
 Extraction Language OCaml.
@@ -11,4 +11,5 @@ Extraction "model.ml"
   trun tcheck tinit tstep1 tfinished ttrace
   chain_net chain_step chain_trace chain_idle chain_viols
   tree_net tree_step tree_trace tree_viols tree_edges_ok
-  enabled_on_trace conformant_trace.
+  enabled_on_trace conformant_trace
+  net_pipe_run.
